@@ -222,6 +222,30 @@ theorem gen0 (j : Nat) (hj : j < 3) : FecDec.GenuinePkt rsNew fam 2 1 (a0.packet
 theorem gen3 (j : Nat) (hj : j < 3) : FecDec.GenuinePkt rsNew fam 2 1 (a3.packet rsNew j) :=
   ⟨a3, j, fam3, a3_wf, rfl, rfl, hj, rfl⟩
 
+/-- the LAST 2/1 group before the id wrap: `paws = 2^32 − 1`, ids `paws − 3 … paws − 1`, shard id
+    `L − 1 = 1431655764` -/
+def z : Group := { d := 2, p := 1, base := 4294967292, payloads := [[1], [2, 3]] }
+
+theorem z_wf : z.WF := ⟨by decide, by decide, by decide, by decide, by decide, by decide, by decide⟩
+
+def famW : FecDec.Family :=
+  fun id => if id = 0 then some a0 else if id = 1431655764 then some z else none
+
+theorem famW0 : famW (a0.base / u32 a0.n) = some a0 := by
+  show (if a0.base / u32 a0.n = 0 then some a0 else _) = some a0
+  rw [if_pos (by decide)]
+
+theorem famWz : famW (z.base / u32 z.n) = some z := by
+  show (if z.base / u32 z.n = 0 then some a0
+    else if z.base / u32 z.n = 1431655764 then some z else none) = some z
+  rw [if_neg (by decide), if_pos (by decide)]
+
+theorem genW0 (j : Nat) (hj : j < 3) : FecDec.GenuinePkt rsNew famW 2 1 (a0.packet rsNew j) :=
+  ⟨a0, j, famW0, a0_wf, rfl, rfl, hj, rfl⟩
+
+theorem genz (j : Nat) (hj : j < 3) : FecDec.GenuinePkt rsNew famW 2 1 (z.packet rsNew j) :=
+  ⟨z, j, famWz, z_wf, rfl, rfl, hj, rfl⟩
+
 end Example
 
 end KcpVerif.Lemmas.FecHist
